@@ -111,6 +111,13 @@ def blank(v):
     return v is None or str(v).strip() == ""
 
 
+def cell_means_yes(spec, v):
+    """does the cell of a ranged set column mean 'yes'?"""
+    if spec['range_kind'] == 'set_inv':
+        return v in (None, '')
+    return bool(conv('bool', v))
+
+
 def conv(kind, v):
     if kind == 'dashstr':       # the converter subclass with its own none-values
         return None if v in (None, 'x', '') else str(v).strip()
@@ -136,7 +143,9 @@ def gen_sheet(rng):
     spec = {}
     spec['tags_kind'] = rng.choice(['list', 'set'])
     spec['n_id'] = rng.choice([1, 1, 1, 2, 2, 0])
-    spec['range_kind'] = rng.choice(['set', 'set', 'dict', 'none'])
+    # ('set_inv': the marks are inverted - a blank cell means yes, an 'x' means no; the reader of the cells is configured
+    # accordingly)
+    spec['range_kind'] = rng.choice(['set', 'set', 'dict', 'none', 'set_inv'])
     spec['have_opt'] = rng.random() < 0.5
     spec['rule_objects'] = rng.choice([None, None, None, 'some', 'all'])
     spec['own_converter'] = rng.random() < 0.25
@@ -203,6 +212,8 @@ def gen_sheet(rng):
             return rng.choice([None, "o%d" % i])
         if t.startswith("Extra"):
             return rng.choice([None, "e", 3])
+        if spec['range_kind'] == 'set_inv':
+            return rng.choice([None, '', 'x', 'x'])
         return rng.choice([None, 'v', 1, '', 'False']) if spec['range_kind'] == 'set' else rng.choice(
             [None, "r%d" % i, " s "])
 
@@ -217,7 +228,7 @@ def gen_sheet(rng):
             if blank(row[0]) and rng.random() < 0.7:
                 t0 = titles[0]
                 row[0] = {'Key': "kf", 'Name': "x", 'Num': 1, 'Flag': 'v', 'Tags': "q", 'Opt': "o"}.get(
-                    t0, 'v' if spec['range_kind'] == 'set' else "r")
+                    t0, 'v' if spec['range_kind'] == 'set' else 'x' if spec['range_kind'] == 'set_inv' else "r")
     if not spec['ladder'] and spec['n_id'] >= 1 and 'Key' in titles and 'Num' in titles:
         # rows without a key give no object - whatever stands in their other cells (a foot-note, a '-')
         for row in data:
@@ -263,7 +274,9 @@ def make_rules(spec):
         'tags': ('Tags', X.cell_list if spec['tags_kind'] == 'list' else X.cell_set),
         'ext': None, 'opt': ('Opt', X.cell_str, {'default_val': 'DFLT'}),
     }
-    if spec['range_kind'] == 'set':
+    if spec['range_kind'] == 'set_inv':
+        rules['marks'] = ('*', X.CellRangeSet(X.CellBool(true_values=[None, ''], false_values=['x'])))
+    elif spec['range_kind'] == 'set':
         rules['marks'] = ('*', X.cell_range_set)
     elif spec['range_kind'] == 'dict':
         rules['marks'] = ('*', X.CellRangeDict(X.cell_str))
@@ -344,8 +357,8 @@ def expected_objects(spec):
         else:
             tm = spec.get('title_map') or {}
             per_key = {tm.get(m, m): eff[tcol[m]] for m in spec['rcols']}
-            if spec['range_kind'] == 'set':
-                val = {m for m, (v, _) in per_key.items() if conv('bool', v)}
+            if spec['range_kind'] in ('set', 'set_inv'):
+                val = {m for m, (v, _) in per_key.items() if cell_means_yes(spec, v)}
             else:
                 val = {m: conv('str', v) for m, (v, _) in per_key.items()}
             o['marks'] = (val, {m: rc for m, (_, rc) in per_key.items()})
@@ -424,8 +437,8 @@ def judge(ctx, spec, case):
                                           "expected": name_of(rc)}))
                         continue
                     cell_v = grid[rc[0]][rc[1]]
-                    if spec['range_kind'] == 'set':
-                        if (m in got_val) != bool(conv('bool', cell_v)):
+                    if spec['range_kind'] in ('set', 'set_inv'):
+                        if (m in got_val) != cell_means_yes(spec, cell_v):
                             problems.append(("range-value-differs-from-cell-at-origin",
                                              {"object": idx, "key": m, "origin": korg, "cell": repr(cell_v)}))
                     elif got_val.get(m) != conv('str', cell_v):
@@ -674,7 +687,10 @@ def other_routes(ctx, spec, ws, obj_cls, rules, objs, problems):
                 want[o.logic_id] = o
             try:
                 if route == "map":
-                    got_map = X.read_table_make_map(ws, obj_cls, rules, **kw)
+                    # (every other time the objects are of a class whose truth value is False - "has no members")
+                    used = obj_cls if len(objs) % 2 else type("QuietObj", (obj_cls,), {"__bool__": lambda self: False,
+                                                                                       "__len__": lambda self: 0})
+                    got_map = X.read_table_make_map(ws, used, rules, **kw)
                 else:
                     cls = type("ObjT", (X.TableReader, obj_cls), {"ATTR_RULES": rules})
                     got_map = cls.read_map(ws)
